@@ -227,6 +227,10 @@ func main() {
 		{"row-switch", func(b int) []op {
 			return []op{{true, 0, 4, 0}, {true, C(b), 4, 0}, {false, 0, 4, 0}, {true, 0, 4, 0}, {false, C(b), 4, 0}, {false, 0, 4, 0}}
 		}},
+		{"pending-hit-then-row-switch", func(b int) []op {
+			// a row hit parked behind a busy pipeline, then the row is switched and the address is read again
+			return []op{{false, 0, 4, 0}, {false, 8, 4, 0}, {true, 0, 4, 0}, {false, C(b), 4, 0}, {false, 0, 4, 0}}
+		}},
 		{"same-row-triple", func(b int) []op {
 			return []op{{true, 0, 4, 0}, {true, 8, 4, 0}, {true, 0, 4, 0}, {false, 0, 16, 0}}
 		}},
